@@ -265,6 +265,25 @@ class BoundBuiltin:
         self.name = name
 
 
+def _is_generator(node):
+    if not isinstance(node, (ast.FunctionDef, ast.AsyncFunctionDef)):
+        return False
+    memo = getattr(node, "_opsa_gen", None)
+    if memo is None:
+        memo = False
+        todo = list(node.body)
+        while todo:
+            x = todo.pop()
+            if isinstance(x, (ast.Yield, ast.YieldFrom)):
+                memo = True
+                break
+            if isinstance(x, (ast.FunctionDef, ast.AsyncFunctionDef, ast.Lambda, ast.ClassDef)):
+                continue
+            todo.extend(ast.iter_child_nodes(x))
+        node._opsa_gen = memo
+    return memo
+
+
 class Env:
     def __init__(self, parent=None):
         self.vars = {}
@@ -587,6 +606,15 @@ class Interp:
             self._bind(node.args, args, kwargs, env, f.module, qual)
             if isinstance(node, ast.Lambda):
                 return self.eval(node.body, env, f.module)
+            if _is_generator(node):
+                # generator function: run eagerly, collecting what it yields (sequential semantics; the consumer
+                # sees the same values in the same order — interleaving of effects with the consumer is not modelled)
+                env.vars["__yielded__"] = []
+                try:
+                    self.exec_block(node.body, env, f.module)
+                except _Return:
+                    pass
+                return list(env.vars["__yielded__"])
             try:
                 self.exec_block(node.body, env, f.module)
             except _Return as r:
@@ -594,6 +622,20 @@ class Interp:
             return None
         finally:
             self.depth -= 1
+
+    def e_Yield(self, e, env, module):
+        ok, acc = env.lookup("__yielded__")
+        if not ok:
+            raise Imprecise(f"yield outside an interpreted generator at {module.rel}:{e.lineno}")
+        acc.append(self.eval(e.value, env, module) if e.value is not None else None)
+        return None
+
+    def e_YieldFrom(self, e, env, module):
+        ok, acc = env.lookup("__yielded__")
+        if not ok:
+            raise Imprecise(f"yield from outside an interpreted generator at {module.rel}:{e.lineno}")
+        acc.extend(self.iterate(self.eval(e.value, env, module)))
+        return None
 
     def _bind(self, a: ast.arguments, args, kwargs, env, module, qual):
         params = a.posonlyargs + a.args
